@@ -74,6 +74,141 @@ def rule_q(ctx):
         rep.ob('Q2', 'parallel_utils.lazy_parallel_map::submits-function(element,*args,**kwargs)', ok, c,
                '' if ok else 'the enqueued future must be submit(executor, function, <loop element>, *args, **kwargs); '
                'found %s' % A.short(arg, 80))
+    # Q6 what the caller passed is what is used: a parameter is rebound only to replace a missing value (`p is None`)
+    params = [x.arg for x in fn.args.posonlyargs + fn.args.args + fn.args.kwonlyargs]
+    n_rebinds = 0
+    for n in A.walk_local(fn):
+        tgts = []
+        if isinstance(n, ast.Assign):
+            tgts = [t for tg in n.targets for t in A.name_targets(tg)]
+        elif isinstance(n, (ast.AugAssign, ast.AnnAssign)) and isinstance(n.target, ast.Name):
+            tgts = [n.target.id]
+        for pn in tgts:
+            if pn not in params:
+                continue
+            n_rebinds += 1
+            only_if_missing = False
+            for t0, truth in flow.guards_of(n, fn):
+                t, neg = A.strip_not(t0)
+                if isinstance(t, ast.Compare) and len(t.ops) == 1 and A.is_name(t.left, pn) and A.is_const(t.comparators[0], None):
+                    is_none = isinstance(t.ops[0], ast.Is) if isinstance(t.ops[0], (ast.Is, ast.IsNot)) else None
+                    if is_none is not None and (is_none != neg) == truth:
+                        only_if_missing = True
+            rep.ob('Q6', 'parallel_utils.lazy_parallel_map::parameter-replaced-only-when-missing(%s)' % pn, only_if_missing, n,
+                   '' if only_if_missing else '`%s` is overwritten although the caller supplied it: the mapped function is '
+                   'called with other arguments / another configuration than requested' % pn)
+    rep.count('parameter rebinds in lazy_parallel_map', n_rebinds)
+    # Q7 the backend dispatch, evaluated abstractly for every documented backend value (and an undocumented one): the
+    # executor that ends up bound is the documented one; an unknown name is refused
+    UNKNOWN = '<any other value>'
+    TABLE = {'mp': 'pathos pool', 'multiprocessing': 'multiprocessing.Pool', 'dill_mp': 'process pool + dill',
+             't': 'thread pool', 'thread': 'thread pool', 'concurrent_mp': 'process pool', False: 'inline (no pool)',
+             UNKNOWN: 'refused'}
+
+    def const_of(e):
+        if isinstance(e, ast.Constant):
+            return True, e.value
+        return False, None
+
+    def ev(test, value):
+        """truth of `test` when backend == value; None if it depends on something else"""
+        if isinstance(test, ast.UnaryOp) and isinstance(test.op, ast.Not):
+            r = ev(test.operand, value)
+            return None if r is None else not r
+        if isinstance(test, ast.BoolOp):
+            rs = [ev(v, value) for v in test.values]
+            if isinstance(test.op, ast.And):
+                return False if False in rs else (None if None in rs else True)
+            return True if True in rs else (None if None in rs else False)
+        if isinstance(test, ast.Compare) and len(test.ops) == 1 and A.is_name(test.left, 'backend'):
+            op, rhs = test.ops[0], test.comparators[0]
+            if isinstance(rhs, (ast.List, ast.Tuple, ast.Set)) and isinstance(op, (ast.In, ast.NotIn)):
+                vals = [const_of(e) for e in rhs.elts]
+                if not all(k for k, _ in vals):
+                    return None
+                r = any(v is value if isinstance(value, bool) or isinstance(v, bool) else v == value for _, v in vals)
+                return r if isinstance(op, ast.In) else not r
+            k, v = const_of(rhs)
+            if not k:
+                return None
+            same = (v is value) if (isinstance(value, bool) or isinstance(v, bool)) else (v == value)
+            if isinstance(op, (ast.Eq, ast.Is)):
+                return same
+            if isinstance(op, (ast.NotEq, ast.IsNot)):
+                return not same
+        return None
+
+    def run_stmts(stmts, value, out):
+        """statements executed for this backend value, in order; stops at a raise. Returns False when it raised."""
+        for st in stmts:
+            if isinstance(st, ast.If) and any(A.is_name(x, 'backend') for x in ast.walk(st.test)):
+                r = ev(st.test, value)
+                if r is None:
+                    out.append(('undecided', st))
+                    return True
+                if not run_stmts(st.body if r else st.orelse, value, out):
+                    return False
+            elif isinstance(st, ast.Raise):
+                out.append(('raise', st))
+                return False
+            else:
+                out.append(('stmt', st))
+        return True
+
+    disp = [n for n in fn.body if isinstance(n, ast.If) and any(A.is_name(x, 'backend') for x in ast.walk(n.test)) and any(
+        isinstance(x, A.FUNC_TYPES) and x.name == L.n_submit for x in ast.walk(n))]
+    if len(disp) != 1:
+        raise AnalysisError('undecidable shape: backend dispatch of lazy_parallel_map not found (candidates: %d)' % len(disp))
+    with_items = L.with_.items[0].context_expr if L.with_.items else None
+    pool_name = A.dotted(with_items.func) if isinstance(with_items, ast.Call) else None
+    imports = {}
+    for n in ast.walk(fn):
+        if isinstance(n, ast.ImportFrom):
+            for al in n.names:
+                imports[al.asname or al.name] = '%s.%s' % (n.module, al.name)
+    for value, expect in TABLE.items():
+        out = []
+        run_stmts([disp[0]], 'no-such-backend' if value is UNKNOWN else value, out)
+        got = None
+        if any(k == 'undecided' for k, _ in out):
+            rep.undecided('Q7', 'parallel_utils.lazy_parallel_map::backend(%r)->%s' % (value, expect), out[-1][1],
+                          'the dispatch test `%s` does not only depend on the backend' % A.short(out[-1][1].test, 50))
+            continue
+        if out and out[-1][0] == 'raise':
+            got = 'refused'
+        for k, st in out:
+            if k != 'stmt':
+                continue
+            bound = None
+            if isinstance(st, ast.Assign) and any(A.is_name(t, pool_name or '\0') for t in st.targets):
+                bound = A.dotted(st.value) or ''
+                bound = imports.get(bound, L.mod.resolve_name(bound) or bound)
+            elif isinstance(st, ast.ImportFrom) and any((al.asname or al.name) == pool_name for al in st.names):
+                bound = '%s.%s' % (st.module, [al.name for al in st.names if (al.asname or al.name) == pool_name][0])
+            elif isinstance(st, A.FUNC_TYPES) and st.name == pool_name:
+                bound = 'inline'
+            if bound is None:
+                continue
+            if bound.endswith('ThreadPoolExecutor'):
+                got = 'thread pool'
+            elif bound.endswith('ProcessPoolExecutor'):
+                uses_dill = any(isinstance(s2, A.FUNC_TYPES) and s2.name == L.n_submit and '_dill_mp_helper' in A.src(s2)
+                                for k2, s2 in out if k2 == 'stmt')
+                got = 'process pool + dill' if uses_dill else 'process pool'
+            elif bound.startswith('pathos'):
+                got = 'pathos pool'
+            elif bound == 'multiprocessing.Pool':
+                got = 'multiprocessing.Pool'
+            elif bound == 'inline':
+                got = 'inline (no pool)'
+            else:
+                got = bound
+        defines = {s2.name for k2, s2 in out if k2 == 'stmt' and isinstance(s2, A.FUNC_TYPES)}
+        complete = got == 'refused' or {L.n_submit, L.n_result, L.n_terminate} <= defines
+        ok = got == expect and complete
+        rep.ob('Q7', 'parallel_utils.lazy_parallel_map::backend(%r)->%s' % (value, expect), ok, disp[0],
+               '' if ok else 'backend=%r %s (documented: %s)' % (
+                   value, ('selects: %s' % got) if got != expect else 'does not define submit/result/terminate', expect))
     # Q3 every yield delivers result(q.get()) blocking/untimed
     ys = A.yields_in(fn)
     rep.floor('yields in lazy_parallel_map', len(ys), 1)
@@ -324,6 +459,19 @@ def rule_li(ctx):
         if isinstance(n, ast.Assign) and isinstance(n.value, ast.Call) and isinstance(n.value.func, ast.Attribute) \
                 and n.value.func.attr == 'copy' and A.is_self_attr(n.value.func.value, INPUT_ATTR):
             frozen = n.targets[0].id
+    # every way through __iter__ that ends normally has delegated to one of the two helpers (a configuration for which
+    # the generator simply ends yields nothing: the untested multi-worker paths would be silently empty)
+    g_it = CFG(it)
+    deleg = [n for n in A.walk_local(it) if isinstance(n, ast.Call) and (
+        A.dotted(n.func) == 'lazy_parallel_map' or (isinstance(n.func, ast.Attribute) and A.is_name(n.func.value, 'self')
+                                                     and n.func.attr.lstrip('_').startswith('single_thread')))]
+    deleg_nodes = {nd.id for nd in g_it.nodes if nd.ast is not None and any(node_contains(nd, d) for d in deleg)}
+    skip = g_it.path_avoiding(g_it.entry.id, lambda nd: nd.id == g_it.exit.id, lambda nd: nd.id in deleg_nodes, edge_ok=normal)
+    rep.ob('I', 'core.PrefetchDataset.__iter__::every-normal-path-delegates-to-a-prefetch-helper', skip is None,
+           skip[-2].ast if skip and len(skip) > 1 and skip[-2].ast is not None else it,
+           '' if skip is None else 'a path through __iter__ ends without calling lazy_parallel_map or the single-thread '
+           'helper: for that configuration the prefetched dataset is empty',
+           path=[repr(x) for x in skip if x.ast is not None] if skip else None)
     lpm_fn = ctx.repo.module('parallel_utils').functions['lazy_parallel_map']
     it_names = set()
     for c in calls:
